@@ -244,6 +244,14 @@ func riDeterminism(w *World, spec detSpec) {
 						w.ok(key, s.Pos(), "reviewed: "+why)
 						return true
 					}
+					// a helper with a single static caller in its package inherits the review of the
+					// same iteration in that caller (the loop was extracted)
+					if c := singleCaller(w, o); c != nil {
+						if why, ok := riReviewed[funcName(c)+"|"+recv+".Range"]; ok && why != "" {
+							w.ok(key, s.Pos(), "reviewed (as part of its only caller "+funcName(c)+"): "+why)
+							return true
+						}
+					}
 					if fl, ok := s.Args[0].(*ast.FuncLit); ok {
 						if why := orderInsensitiveBody(info, fl.Body, sorted); why != "" {
 							w.ok(key, s.Pos(), "order-insensitive: "+why)
@@ -385,4 +393,34 @@ func riIncremental(w *World) {
 		{queriesRel, "File.Execute"}, {queriesRel, "AST.Execute"}, {queriesRel, "IR.Execute"}, {queriesRel, "Link.Execute"}, {queriesRel, "FDS.Execute"}, {queriesRel, "FDP.Execute"},
 		{reportRel, "(*Report).Canonicalize"}, {incRel, "(*task).run"}, {incRel, "(*task).checkCycle"}, {incRel, "(*Executor).EvictWithCleanup"}, {incRel, "(*Executor).Keys"}},
 		scope: []string{"experimental/...", "internal/intern", "internal/toposort", "internal/interval", "internal/trie", "internal/arena", "internal/cases", "internal/ext/timex"}})
+}
+
+// singleCaller returns the only function of o's package that calls o statically, or nil.
+func singleCaller(w *World, o *types.Func) *types.Func {
+	pk := w.declPkg[o]
+	if pk == nil {
+		return nil
+	}
+	var callers []*types.Func
+	for f, d := range w.decls {
+		if w.declPkg[f] != pk || d.Body == nil || f == o {
+			continue
+		}
+		calls := false
+		ast.Inspect(d.Body, func(x ast.Node) bool {
+			if c, ok := x.(*ast.CallExpr); ok {
+				if g := callee(pk.TypesInfo, c); g != nil && g.Origin() == o {
+					calls = true
+				}
+			}
+			return !calls
+		})
+		if calls {
+			callers = append(callers, f)
+		}
+	}
+	if len(callers) == 1 {
+		return callers[0]
+	}
+	return nil
 }
